@@ -201,4 +201,412 @@ theorem C04_silent_peer_bound (lim : Nat) (hl : 1 ≤ lim) :
     (lim - 0) + (lim - 0) = 2 * lim ∧ (lim - 1) + 1 + (lim - 1) = 2 * (lim - 1) + 1 := by
   omega
 
+/-! ## Iteration over time: exactly at the N-th consecutive expiry; a silent peer cannot hang a transaction -/
+
+/-- the call times of consecutive expiries of a timer started at `start`: each call happens when
+the timer (restarted by the previous one) has run out -/
+def Expiring (timeout : Nat) : Nat → List Nat → Prop
+  | _, [] => True
+  | start, now :: rest => now - start ≥ timeout ∧ Expiring timeout now rest
+
+/-- the last element, `d` for the empty list -/
+def lastOr (d : Nat) : List Nat → Nat
+  | [] => d
+  | x :: xs => lastOr x xs
+
+/-- the parameter block with the positive ACK timer restarted at `start` and the counter at `c` -/
+def bumpP (p : Dest.Params) (start timeout c : Nat) : Dest.Params :=
+  { p with ackTimer := some ⟨start, timeout⟩, ackCounter := c }
+
+/-- the handler with that parameter block and an empty queue -/
+def bump (d : Dest.DestSt) (start timeout c : Nat) : Dest.DestSt :=
+  { d with p := bumpP d.p start timeout c, queue := [], numReady := 0 }
+
+/-- receiver, Finished awaiting its ACK, silent peer: the positive ACK procedure is run at each of
+the given times and the user retrieves the PDUs in between; returns the state and the PDUs emitted -/
+def destExpiries (cfg : LocalCfg) (r : Dest.DM Unit) : List Nat → Dest.DestSt → List Pdu → Dest.DestSt × List Pdu
+  | [], d, out => (d, out)
+  | now :: rest, d, out =>
+    let d1 := stateOf (Dest.handlePositiveAckProcedures ⟨cfg, now⟩ r d)
+    destExpiries cfg r rest { d1 with queue := [], numReady := 0 } (out ++ d1.queue)
+
+/-- **Below the limit every expiry re-sends exactly one Finished PDU and nothing else happens.**
+`k` consecutive expiries with `counter + k < limit`: exactly `k` Finished PDUs (all equal to the
+original one) were emitted, the counter grew by exactly `k`, the timer was restarted at the last
+expiry, and nothing else in the handler changed (no fault declared, same step, same transaction) -/
+theorem C04_dest_expiries_below_limit (cfg : LocalCfg) (r : Dest.DM Unit) (rc : RemoteCfg) :
+    ∀ (times : List Nat) (d : Dest.DestSt) (out : List Pdu) (t : Timer),
+      d.p.ackTimer = some t → d.p.remoteCfg = some rc → d.numReady = 0 → d.queue = [] →
+      Expiring t.timeout t.start times → d.p.ackCounter + times.length < rc.ackLim →
+      destExpiries cfg r times d out =
+        (bump d (lastOr t.start times) t.timeout (d.p.ackCounter + times.length),
+         out ++ List.replicate times.length (Dest.mkFin d.p.conf d.p.fin)) := by
+  intro times
+  induction times with
+  | nil =>
+    intro d out t ht hrc hq hqq _ _
+    obtain ⟨st, to⟩ := t
+    cases d with
+    | mk a b c p e f g h i j =>
+      cases p
+      simp_all [destExpiries, lastOr, bump, bumpP]
+  | cons now rest ih =>
+    intro d out t ht hrc hq hqq hexp hlim
+    simp only [Expiring] at hexp
+    have hto : t.timedOut now = true := by simp [Timer.timedOut, hexp.1]
+    have hl : d.p.ackCounter + 1 < rc.ackLim := by simp at hlim; omega
+    have h1 := C04_dest_expiry_resends ⟨cfg, now⟩ d t rc r ht hrc hto hl hq
+    simp only [destExpiries, h1, stateOf]
+    have h2 := ih (bump d now t.timeout (d.p.ackCounter + 1))
+      (out ++ (d.queue ++ [Dest.mkFin d.p.conf d.p.fin])) ⟨now, t.timeout⟩ rfl hrc rfl rfl hexp.2
+      (by simp [bump, bumpP] at hlim ⊢; omega)
+    refine Eq.trans h2 ?_
+    simp [lastOr, bump, bumpP, hqq, hq, List.replicate_succ, Nat.add_assoc, Nat.add_comm 1]
+
+theorem Expiring_snoc (timeout : Nat) : ∀ (times : List Nat) (start last : Nat),
+    Expiring timeout start (times ++ [last]) →
+      Expiring timeout start times ∧ last - lastOr start times ≥ timeout := by
+  intro times
+  induction times with
+  | nil => intro start last h; simpa [Expiring, lastOr] using h
+  | cons x xs ih =>
+    intro start last h
+    simp only [List.cons_append, Expiring] at h
+    have := ih x last h.2
+    exact ⟨⟨h.1, this.1⟩, by simpa [lastOr] using this.2⟩
+
+def cancelP (p : Dest.Params) : Dest.Params :=
+  { p with fin := { p.fin with cond := ccPositiveAckLimit }, canceled := true }
+
+/-- the handler right after Positive ACK Limit Reached cancelled the transaction -/
+def cancelledSt (d : Dest.DestSt) (tid : Tid) : Dest.DestSt :=
+  { d with step := .TRANSFER_COMPLETION, p := cancelP d.p,
+           flts := d.flts ++ [⟨fhCancel, tid, ccPositiveAckLimit, d.p.progress⟩] }
+
+/-- **The limit fault is declared exactly at the N-th consecutive expiry, never earlier or later**
+(receiver, Finished awaiting its ACK, fault handler "cancel", transaction not yet cancelled):
+with `counter + k + 1 = limit`, the first `k` expiries re-send one Finished PDU each and declare
+nothing; the `(k+1)`-th declares Positive ACK Limit Reached — one "cancel" callback with the
+transaction id and the progress —, re-sends nothing itself and hands over to the nested state
+machine call that completes the cancelled transaction. -/
+theorem C04_dest_limit_exactly_at_Nth (cfg : LocalCfg) (r : Dest.DM Unit) (rc : RemoteCfg)
+    (times : List Nat) (last : Nat) (d : Dest.DestSt) (t : Timer) (tid : Tid)
+    (ht : d.p.ackTimer = some t) (hrc : d.p.remoteCfg = some rc) (hq : d.numReady = 0) (hqq : d.queue = [])
+    (hexp : Expiring t.timeout t.start (times ++ [last]))
+    (hlim : d.p.ackCounter + times.length + 1 = rc.ackLim)
+    (htid : d.p.tid = some tid) (hb : d.state = .busy)
+    (hfh : d.faults.lookup ccPositiveAckLimit = some fhCancel)
+    (hx : C14.Dest.inCancelExchange d = false) :
+    destExpiries cfg r times d [] =
+      (bump d (lastOr t.start times) t.timeout (d.p.ackCounter + times.length),
+       List.replicate times.length (Dest.mkFin d.p.conf d.p.fin)) ∧
+    Dest.handlePositiveAckProcedures ⟨cfg, last⟩ r
+        (bump d (lastOr t.start times) t.timeout (d.p.ackCounter + times.length)) =
+      r (cancelledSt (bump d (lastOr t.start times) t.timeout (d.p.ackCounter + times.length)) tid) := by
+  obtain ⟨hexp1, hlast⟩ := Expiring_snoc _ _ _ _ hexp
+  have h1 := C04_dest_expiries_below_limit cfg r rc times d [] t ht hrc hq hqq hexp1 (by omega)
+  refine ⟨by simpa using h1, ?_⟩
+  have hx' : C14.Dest.inCancelExchange (bump d (lastOr t.start times) t.timeout (d.p.ackCounter + times.length)) = false := by
+    simp only [C14.Dest.inCancelExchange, bump, bumpP] at hx ⊢; exact hx
+  have h2 := C04_dest_expiry_at_limit_cancels ⟨cfg, last⟩
+    (bump d (lastOr t.start times) t.timeout (d.p.ackCounter + times.length))
+    ⟨lastOr t.start times, t.timeout⟩ rc r tid rfl (by simpa [bump, bumpP] using hrc)
+    (by simp [Timer.timedOut, hlast]) (by simp [bump, bumpP]; omega) (by simpa [bump, bumpP] using htid)
+    (by simpa [bump] using hb) (by simpa [bump] using hfh) hx'
+  rw [h2]
+  rfl
+
+/-! ### receiver: NAK sequences awaiting missing data, silent peer -/
+
+def bumpNakP (p : Dest.Params) (start timeout c : Nat) : Dest.Params :=
+  { p with procTimer := some ⟨start, timeout⟩, nakCounter := c }
+
+def bumpNak (d : Dest.DestSt) (start timeout c : Nat) : Dest.DestSt :=
+  { d with p := bumpNakP d.p start timeout c, queue := [], numReady := 0 }
+
+/-- the deferred lost segment procedure run at each of the given times, PDUs retrieved in between -/
+def nakExpiries (cfg : LocalCfg) : List Nat → Dest.DestSt → List Pdu → Dest.DestSt × List Pdu
+  | [], d, out => (d, out)
+  | now :: rest, d, out =>
+    let d1 := stateOf (Dest.deferredLostSegmentHandling ⟨cfg, now⟩ d)
+    nakExpiries cfg rest { d1 with queue := [], numReady := 0 } (out ++ d1.queue)
+
+/-- `k` copies of a list -/
+def repeatList {α : Type} (l : List α) : Nat → List α
+  | 0 => []
+  | k + 1 => l ++ repeatList l k
+
+/-- **Below the limit every expiry re-issues the whole NAK sequence, exactly once.**  With nothing
+arriving, `k` consecutive expiries with `counter + k < limit` emit `k` copies of the NAK sequence
+for what is missing, add exactly `k` to the counter, restart the timer at the last expiry and
+change nothing else -/
+theorem C04_nak_expiries_below_limit (cfg : LocalCfg) (rc : RemoteCfg) (fse maxSegs : Nat) :
+    ∀ (times : List Nat) (d : Dest.DestSt) (out : List Pdu) (t : Timer),
+      d.p.deferredActive = true → d.p.canceled = false → d.p.remoteCfg = some rc →
+      d.p.fileSizeEof = some fse → (d.p.trk ≠ [] ∨ d.p.metadataMissing = true) →
+      d.p.procTimer = some t → maxSegReqs rc.maxPkt d.p.conf = some maxSegs →
+      d.numReady = 0 → d.queue = [] →
+      Expiring t.timeout t.start times → d.p.nakCounter + times.length < rc.nakLim →
+      nakExpiries cfg times d out =
+        (bumpNak d (lastOr t.start times) t.timeout (d.p.nakCounter + times.length),
+         out ++ repeatList (Dest.nakSequence d.p.conf fse maxSegs d.p.metadataMissing d.p.trk) times.length) := by
+  intro times
+  induction times with
+  | nil =>
+    intro d out t _ _ _ _ _ ht _ hq hqq _ _
+    obtain ⟨st, to⟩ := t
+    cases d with
+    | mk a b c p e f g h i j =>
+      cases p
+      simp_all [nakExpiries, lastOr, bumpNak, bumpNakP, repeatList]
+  | cons now rest ih =>
+    intro d out t ha hnc hrc hf hmiss ht hmax hq hqq hexp hlim
+    simp only [Expiring] at hexp
+    have hto : t.timedOut now = true := by simp [Timer.timedOut, hexp.1]
+    have hl : d.p.nakCounter + 1 ≠ rc.nakLim := by simp at hlim; omega
+    have h1 := C04_nak_expiry_reissues ⟨cfg, now⟩ d t rc fse maxSegs ha hnc hrc hf hmiss ht hto hl hmax
+    simp only at h1
+    simp only [nakExpiries, h1, stateOf]
+    have h2 := ih (bumpNak d now t.timeout (d.p.nakCounter + 1))
+      (out ++ (d.queue ++ Dest.nakSequence d.p.conf fse maxSegs d.p.metadataMissing d.p.trk)) ⟨now, t.timeout⟩
+      (by simpa [bumpNak, bumpNakP] using ha) (by simpa [bumpNak, bumpNakP] using hnc)
+      (by simpa [bumpNak, bumpNakP] using hrc) (by simpa [bumpNak, bumpNakP] using hf)
+      (by simpa [bumpNak, bumpNakP] using hmiss) rfl (by simpa [bumpNak, bumpNakP] using hmax) rfl rfl hexp.2
+      (by simp [bumpNak, bumpNakP] at hlim ⊢; omega)
+    refine Eq.trans h2 ?_
+    simp [lastOr, bumpNak, bumpNakP, hqq, hq, repeatList, Nat.add_assoc, Nat.add_comm 1]
+
+/-- **NAK Limit Reached is declared exactly at the N-th consecutive expiry without progress**: with
+`counter + k + 1 = limit`, the first `k` expiries re-issue the NAK sequence and declare nothing; the
+`(k+1)`-th call is exactly the declaration of the NAK limit fault (no NAK is sent) -/
+theorem C04_nak_limit_exactly_at_Nth (cfg : LocalCfg) (rc : RemoteCfg) (fse maxSegs : Nat)
+    (times : List Nat) (last : Nat) (d : Dest.DestSt) (t : Timer)
+    (ha : d.p.deferredActive = true) (hnc : d.p.canceled = false) (hrc : d.p.remoteCfg = some rc)
+    (hf : d.p.fileSizeEof = some fse) (hmiss : d.p.trk ≠ [] ∨ d.p.metadataMissing = true)
+    (ht : d.p.procTimer = some t) (hmax : maxSegReqs rc.maxPkt d.p.conf = some maxSegs)
+    (hq : d.numReady = 0) (hqq : d.queue = [])
+    (hexp : Expiring t.timeout t.start (times ++ [last]))
+    (hlim : d.p.nakCounter + times.length + 1 = rc.nakLim) :
+    nakExpiries cfg times d [] =
+      (bumpNak d (lastOr t.start times) t.timeout (d.p.nakCounter + times.length),
+       repeatList (Dest.nakSequence d.p.conf fse maxSegs d.p.metadataMissing d.p.trk) times.length) ∧
+    Dest.deferredLostSegmentHandling ⟨cfg, last⟩
+        (bumpNak d (lastOr t.start times) t.timeout (d.p.nakCounter + times.length)) =
+      (do let _ ← Dest.declareFault ccNakLimit; pure ())
+        (bumpNak d (lastOr t.start times) t.timeout (d.p.nakCounter + times.length)) := by
+  obtain ⟨hexp1, hlast⟩ := Expiring_snoc _ _ _ _ hexp
+  have h1 := C04_nak_expiries_below_limit cfg rc fse maxSegs times d [] t ha hnc hrc hf hmiss ht hmax hq hqq
+    hexp1 (by omega)
+  refine ⟨by simpa using h1, ?_⟩
+  exact C04_nak_expiry_at_limit ⟨cfg, last⟩ _ ⟨lastOr t.start times, t.timeout⟩ rc fse
+    (by simpa [bumpNak, bumpNakP] using ha) (by simpa [bumpNak, bumpNakP] using hnc)
+    (by simpa [bumpNak, bumpNakP] using hrc) (by simpa [bumpNak, bumpNakP] using hf)
+    (by simpa [bumpNak, bumpNakP] using hmiss) rfl (by simp [Timer.timedOut, hlast])
+    (by simp [bumpNak, bumpNakP]; omega)
+
+/-! ### sender: EOF awaiting its ACK, silent peer -/
+
+def bumpSrcP (p : Source.Params) (start timeout c : Nat) : Source.Params :=
+  { p with ackTimer := some ⟨start, timeout⟩, ackCounter := c }
+
+def bumpSrc (s : Source.SrcSt) (start timeout c : Nat) (inds : List Ind) : Source.SrcSt :=
+  { s with p := bumpSrcP s.p start timeout c, queue := [], numReady := 0, inds := inds }
+
+/-- one expiry below the limit, exact resulting state -/
+theorem C04_source_expiry_resends_exact (env : Source.Env) (s : Source.SrcSt) (t : Timer) (rc : RemoteCfg)
+    (req : Source.PutReq) (src : String) (F cks : List UInt8) (cond : Nat) (tid : Tid)
+    (ht : s.p.ackTimer = some t) (hrc : s.p.remoteCfg = some rc) (hexp : t.timedOut env.now = true)
+    (hlim : s.p.ackCounter + 1 < rc.ackLim)
+    (hreq : s.putReq = some req) (hsrc : req.src = some src) (hmo : s.p.metadataOnly = false)
+    (hfile : s.fs.get src = some (.file F)) (hnull : Checksum.CksType.ofNat rc.cks ≠ .null)
+    (hcks : Checksum.calcChecksum (Checksum.CksType.ofNat rc.cks) F s.p.fileSize s.p.segmentLen = .ok cks)
+    (hlen : cks.length = 4) (hcond : s.p.condCodeEof = some cond) (htid : s.p.tid = some tid) :
+    Source.handlePositiveAckProcedures env s =
+      .ok () { s with p := bumpSrcP s.p env.now t.timeout (s.p.ackCounter + 1),
+                      queue := s.queue ++ [Source.mkEof s.p.conf cond cks s.p.progress],
+                      numReady := s.numReady + 1,
+                      inds := s.inds ++ (if env.cfg.indEofSent then [Ind.eofSent tid] else []) } := by
+  have hl : ¬ rc.ackLim ≤ s.p.ackCounter + 1 := by omega
+  have hc : Fs.calcChecksum s.fs (Checksum.CksType.ofNat rc.cks) src s.p.fileSize s.p.segmentLen = .ok cks := by
+    simp [Fs.calcChecksum, hnull, hfile, hcks]
+  cases hi : env.cfg.indEofSent <;>
+  · msimp [Source.handlePositiveAckProcedures, Source.getP, ht, hrc, hexp, hl, Source.modP,
+      Source.checksumCalculation, hreq, hsrc, hmo, hc,
+      Source.prepareEofPdu, hcond, hlen, Source.addPacket, hi, htid, Source.emitInd, bumpSrcP, Timer.reset]
+
+/-- the sender's positive ACK procedure run at each of the given times, PDUs retrieved in between -/
+def srcExpiries (cfg : LocalCfg) : List Nat → Source.SrcSt → List Pdu → Source.SrcSt × List Pdu
+  | [], s, out => (s, out)
+  | now :: rest, s, out =>
+    let s1 := stateOf (Source.handlePositiveAckProcedures ⟨cfg, now⟩ s)
+    srcExpiries cfg rest { s1 with queue := [], numReady := 0 } (out ++ s1.queue)
+
+/-- **Below the limit every expiry re-sends exactly one EOF PDU** (same condition code, size and
+checksum), adds one to the counter, restarts the timer, announces it (EOF-Sent, if enabled) and
+changes nothing else -/
+theorem C04_source_expiries_below_limit (cfg : LocalCfg) (rc : RemoteCfg) (req : Source.PutReq) (src : String)
+    (F cks : List UInt8) (cond : Nat) (tid : Tid) :
+    ∀ (times : List Nat) (s : Source.SrcSt) (out : List Pdu) (t : Timer),
+      s.p.ackTimer = some t → s.p.remoteCfg = some rc → s.putReq = some req → req.src = some src →
+      s.p.metadataOnly = false → s.fs.get src = some (.file F) → Checksum.CksType.ofNat rc.cks ≠ .null →
+      Checksum.calcChecksum (Checksum.CksType.ofNat rc.cks) F s.p.fileSize s.p.segmentLen = .ok cks →
+      cks.length = 4 → s.p.condCodeEof = some cond → s.p.tid = some tid →
+      s.numReady = 0 → s.queue = [] →
+      Expiring t.timeout t.start times → s.p.ackCounter + times.length < rc.ackLim →
+      srcExpiries cfg times s out =
+        (bumpSrc s (lastOr t.start times) t.timeout (s.p.ackCounter + times.length)
+           (s.inds ++ repeatList (if cfg.indEofSent then [Ind.eofSent tid] else []) times.length),
+         out ++ List.replicate times.length (Source.mkEof s.p.conf cond cks s.p.progress)) := by
+  intro times
+  induction times with
+  | nil =>
+    intro s out t ht _ _ _ _ _ _ _ _ _ _ hq hqq _ _
+    obtain ⟨st, to⟩ := t
+    cases s with
+    | mk a b c p e f g h i j k l =>
+      cases p
+      simp_all [srcExpiries, lastOr, bumpSrc, bumpSrcP, repeatList]
+  | cons now rest ih =>
+    intro s out t ht hrc hreq hsrc hmo hfile hnull hcks hlen hcond htid hq hqq hexp hlim
+    simp only [Expiring] at hexp
+    have hto : t.timedOut now = true := by simp [Timer.timedOut, hexp.1]
+    have hl : s.p.ackCounter + 1 < rc.ackLim := by simp at hlim; omega
+    have h1 := C04_source_expiry_resends_exact ⟨cfg, now⟩ s t rc req src F cks cond tid ht hrc hto hl hreq hsrc
+      hmo hfile hnull hcks hlen hcond htid
+    simp only [srcExpiries, h1, stateOf]
+    have h2 := ih (bumpSrc s now t.timeout (s.p.ackCounter + 1)
+        (s.inds ++ (if cfg.indEofSent then [Ind.eofSent tid] else [])))
+      (out ++ (s.queue ++ [Source.mkEof s.p.conf cond cks s.p.progress])) ⟨now, t.timeout⟩ rfl
+      (by simpa [bumpSrc, bumpSrcP] using hrc) (by simpa [bumpSrc] using hreq) hsrc
+      (by simpa [bumpSrc, bumpSrcP] using hmo) (by simpa [bumpSrc] using hfile) hnull
+      (by simpa [bumpSrc, bumpSrcP] using hcks) hlen (by simpa [bumpSrc, bumpSrcP] using hcond)
+      (by simpa [bumpSrc, bumpSrcP] using htid) rfl rfl hexp.2
+      (by simp [bumpSrc, bumpSrcP] at hlim ⊢; omega)
+    refine Eq.trans h2 ?_
+    simp [lastOr, bumpSrc, bumpSrcP, hqq, hq, repeatList, List.replicate_succ, Nat.add_assoc, Nat.add_comm 1]
+
+/-- **Positive ACK Limit Reached is declared exactly at the N-th consecutive expiry** (sender):
+with `counter + k + 1 = limit` the first `k` expiries re-send one EOF PDU each and declare nothing;
+the `(k+1)`-th call is exactly the declaration of the fault -/
+theorem C04_source_limit_exactly_at_Nth (cfg : LocalCfg) (rc : RemoteCfg) (req : Source.PutReq) (src : String)
+    (F cks : List UInt8) (cond : Nat) (tid : Tid) (times : List Nat) (last : Nat) (s : Source.SrcSt) (t : Timer)
+    (ht : s.p.ackTimer = some t) (hrc : s.p.remoteCfg = some rc) (hreq : s.putReq = some req)
+    (hsrc : req.src = some src) (hmo : s.p.metadataOnly = false) (hfile : s.fs.get src = some (.file F))
+    (hnull : Checksum.CksType.ofNat rc.cks ≠ .null)
+    (hcks : Checksum.calcChecksum (Checksum.CksType.ofNat rc.cks) F s.p.fileSize s.p.segmentLen = .ok cks)
+    (hlen : cks.length = 4) (hcond : s.p.condCodeEof = some cond) (htid : s.p.tid = some tid)
+    (hq : s.numReady = 0) (hqq : s.queue = [])
+    (hexp : Expiring t.timeout t.start (times ++ [last]))
+    (hlim : s.p.ackCounter + times.length + 1 = rc.ackLim) :
+    let sk := bumpSrc s (lastOr t.start times) t.timeout (s.p.ackCounter + times.length)
+      (s.inds ++ repeatList (if cfg.indEofSent then [Ind.eofSent tid] else []) times.length)
+    srcExpiries cfg times s [] =
+      (sk, List.replicate times.length (Source.mkEof s.p.conf cond cks s.p.progress)) ∧
+    Source.handlePositiveAckProcedures ⟨cfg, last⟩ sk = Source.declareFault ⟨cfg, last⟩ ccPositiveAckLimit sk := by
+  obtain ⟨hexp1, hlast⟩ := Expiring_snoc _ _ _ _ hexp
+  have h1 := C04_source_expiries_below_limit cfg rc req src F cks cond tid times s [] t ht hrc hreq hsrc hmo
+    hfile hnull hcks hlen hcond htid hq hqq hexp1 (by omega)
+  refine ⟨by simpa using h1, ?_⟩
+  exact C04_source_expiry_at_limit ⟨cfg, last⟩ _ ⟨lastOr t.start times, t.timeout⟩ rc rfl
+    (by simpa [bumpSrc, bumpSrcP] using hrc) (by simp [Timer.timedOut, hlast])
+    (by simp [bumpSrc, bumpSrcP]; omega)
+
+/-! ### the cancellation exchange after the limit fault (receiver) -/
+
+/-- the cancelled transaction is completed by the nested state machine call: Transaction-Finished
+indication (if enabled), incomplete file deleted if so configured, one Finished (cancel) PDU
+queued, positive ACK procedure restarted from zero -/
+theorem C04_dest_cancel_completes (env : Dest.Env) (d : Dest.DestSt) (rc : RemoteCfg) (rec : Dest.DM Unit)
+    (hb : d.state = .busy) (hstep : d.step = .TRANSFER_COMPLETION) (hq : d.queue = []) (hn : d.numReady = 0)
+    (hc : d.p.canceled = true) (hrc : d.p.remoteCfg = some rc) (hmode : d.p.conf.mode = .ack)
+    (hms : rc.ackMs ≠ 0) :
+    ∃ d', Dest.stateMachineWith env none rec d = .ok () d' ∧
+      d'.step = .WAITING_FOR_FINISHED_ACK ∧ d'.state = .busy ∧ d'.p.ackCounter = 0 ∧
+      d'.p.ackTimer = some ⟨env.now, rc.ackMs⟩ ∧ d'.p.canceled = true ∧ d'.p.remoteCfg = some rc ∧
+      d'.p.tid = d.p.tid ∧ d'.faults = d.faults ∧ d'.flts = d.flts ∧ d'.numReady = 1 ∧
+      d'.queue = [Dest.mkFin d.p.conf d'.p.fin] ∧ d'.p.fin.cond = d.p.fin.cond ∧ d'.p.conf = d.p.conf ∧
+      d'.p.progress = d.p.progress := by
+  have hidle : (d.state = CfdpState.idle) = False := by simp [hb]
+  by_cases hdisp : rc.disp = true ∧ d.p.fin.deliv = dcIncomplete <;>
+  cases hind : env.cfg.indFinished <;>
+  · apply Exists.intro
+    constructor
+    · msimp [Dest.stateMachineWith, hb, Dest.nonIdleFsm, Dest.fsmAdvancementAfterPacketsWereSent, hq, hstep,
+        Dest.fsmFromReceiving, Dest.fsmFromWaitingForMetadata, Dest.fsmFromCheckLimit,
+        Dest.fsmFromWaitingForMissingData, Dest.fsmFromTransferCompletion, Dest.handleTransferCompletion,
+        Dest.noticeOfCompletion, hc, hrc, hdisp, hind, Dest.getP, Dest.emitInd, Dest.transmissionMode, hmode,
+        Dest.fsmFromSendingFinishedPdu, hn, Dest.prepareFinishedPdu, Dest.addPacket, Dest.handleFinishedPduSent,
+        Dest.startPositiveAckProcedure, Dest.modP, Dest.fsmFromWaitingForFinishedAck,
+        Dest.handleWaitingForFinishedAck, Dest.handlePositiveAckProcedures, Timer.timedOut, hms]
+      rfl
+    · simp
+
+/-- **A silent peer cannot hang the receiver** (default fault handlers: Positive ACK Limit Reached
+cancels).  The handler waits for the ACK of its Finished PDU with limit `N`; nothing ever arrives.
+`N-1` expiries re-send the Finished PDU; the `N`-th declares the fault, cancels, and the nested call
+queues the Finished (cancel) PDU and restarts the procedure; `N-1` further expiries re-send that
+PDU; the `N`-th declares the fault again, which now abandons: the handler is idle, exactly
+`2·(N-1) + 1` Finished PDUs after the original one were ever sent, and none after that. -/
+theorem C04_dest_silent_peer_idle_after_2N (cfg : LocalCfg) (rc : RemoteCfg) (rec : Dest.DM Unit)
+    (times1 : List Nat) (last1 : Nat) (times2 : List Nat) (last2 : Nat) (d : Dest.DestSt) (t : Timer) (tid : Tid)
+    (ht : d.p.ackTimer = some t) (hrc : d.p.remoteCfg = some rc) (hq : d.numReady = 0) (hqq : d.queue = [])
+    (hc0 : d.p.ackCounter = 0) (htid : d.p.tid = some tid) (hb : d.state = .busy)
+    (hstep : d.step = .WAITING_FOR_FINISHED_ACK) (hnc : d.p.canceled = false) (hmode : d.p.conf.mode = .ack)
+    (hms : rc.ackMs ≠ 0)
+    (hfh : d.faults.lookup ccPositiveAckLimit = some fhCancel)
+    (hexp1 : Expiring t.timeout t.start (times1 ++ [last1])) (hlen1 : times1.length + 1 = rc.ackLim)
+    (hexp2 : Expiring rc.ackMs last1 (times2 ++ [last2])) (hlen2 : times2.length + 1 = rc.ackLim) :
+    ∃ dk d1 dend fin2,
+      -- phase 1: N-1 re-sends of the original Finished PDU, no fault
+      destExpiries cfg (Dest.stateMachineWith ⟨cfg, last1⟩ none rec) times1 d [] =
+        (dk, List.replicate times1.length (Dest.mkFin d.p.conf d.p.fin)) ∧
+      -- N-th expiry: fault, cancel, Finished (cancel) queued, procedure restarted
+      Dest.handlePositiveAckProcedures ⟨cfg, last1⟩ (Dest.stateMachineWith ⟨cfg, last1⟩ none rec) dk = .ok () d1 ∧
+      d1.queue = [fin2] ∧ d1.flts = d.flts ++ [⟨fhCancel, tid, ccPositiveAckLimit, d.p.progress⟩] ∧
+      -- phase 2: N-1 re-sends of the Finished (cancel) PDU, then abandon
+      (destExpiries cfg rec times2 { d1 with queue := [], numReady := 0 } []).2 =
+        List.replicate times2.length fin2 ∧
+      Dest.handlePositiveAckProcedures ⟨cfg, last2⟩ rec
+        (destExpiries cfg rec times2 { d1 with queue := [], numReady := 0 } []).1 = .ok () dend ∧
+      dend.state = .idle ∧ dend.step = .IDLE ∧ dend.queue = [] ∧
+      dend.flts = d1.flts ++ [⟨fhAbandon, tid, ccPositiveAckLimit, d.p.progress⟩] := by
+  have hx : C14.Dest.inCancelExchange d = false := by simp [C14.Dest.inCancelExchange, hnc]
+  obtain ⟨h1, h2⟩ :=
+    C04_dest_limit_exactly_at_Nth cfg (Dest.stateMachineWith ⟨cfg, last1⟩ none rec) rc times1 last1 d t tid
+      ht hrc hq hqq hexp1 (by omega) htid hb hfh hx
+  -- the nested call completes the cancelled transaction
+  obtain ⟨d1, hc1, hs1, hb1, hcnt1, htm1, hcan1, hrc1, htid1, hf1, hfl1, hn1, hq1, hcond1, hconf1, hprog1⟩ :=
+    C04_dest_cancel_completes ⟨cfg, last1⟩
+      (cancelledSt (bump d (lastOr t.start times1) t.timeout (d.p.ackCounter + times1.length)) tid) rc rec
+      (by simpa [cancelledSt, bump] using hb) rfl (by simp [cancelledSt, bump]) (by simp [cancelledSt, bump])
+      (by simp [cancelledSt, cancelP]) (by simpa [cancelledSt, cancelP, bump, bumpP] using hrc)
+      (by simpa [cancelledSt, cancelP, bump, bumpP] using hmode) hms
+  -- phase 2 on the drained state
+  have hd1q : ({ d1 with queue := [], numReady := 0 } : Dest.DestSt).p.ackTimer = some ⟨last1, rc.ackMs⟩ := htm1
+  obtain ⟨hexp2a, hlast2⟩ := Expiring_snoc _ _ _ _ hexp2
+  have h3 := C04_dest_expiries_below_limit cfg rec rc times2 { d1 with queue := [], numReady := 0 } []
+    ⟨last1, rc.ackMs⟩ htm1 hrc1 rfl rfl hexp2a (by simp [hcnt1]; omega)
+  have hx2 : C14.Dest.inCancelExchange
+      (bump { d1 with queue := [], numReady := 0 } (lastOr last1 times2) rc.ackMs (0 + times2.length)) = true := by
+    simp [C14.Dest.inCancelExchange, bump, bumpP, hcan1, hs1]
+  have h4 := C04_dest_expiry_at_limit_abandons ⟨cfg, last2⟩
+    (bump { d1 with queue := [], numReady := 0 } (lastOr last1 times2) rc.ackMs (0 + times2.length))
+    ⟨lastOr last1 times2, rc.ackMs⟩ rc rec tid rfl (by simpa [bump, bumpP] using hrc1)
+    (by simp [Timer.timedOut, hlast2]) (by simp [bump, bumpP]; omega)
+    (by simp [bump, bumpP, htid1, cancelledSt, cancelP, htid])
+    (by simp [bump, hf1, cancelledSt, hfh]) hx2
+  simp only at h3
+  rw [hcnt1] at h3
+  obtain ⟨dend, hdend, he1, he2, he3, he4⟩ : ∃ dend, Dest.handlePositiveAckProcedures ⟨cfg, last2⟩ rec
+      (bump { d1 with queue := [], numReady := 0 } (lastOr last1 times2) rc.ackMs (0 + times2.length)) = .ok () dend ∧
+      dend.state = .idle ∧ dend.step = .IDLE ∧ dend.queue = [] ∧
+      dend.flts = d1.flts ++ [⟨fhAbandon, tid, ccPositiveAckLimit, d.p.progress⟩] :=
+    ⟨_, h4, rfl, rfl, by simp [bump], by simp [bump, bumpP, hfl1, hcond1, hprog1, cancelledSt, cancelP]⟩
+  refine ⟨_, d1, dend, Dest.mkFin d.p.conf d1.p.fin, by simpa using h1, ?_, ?_, ?_, ?_, ?_, he1, he2, he3, he4⟩
+  · rw [h2]; exact hc1
+  · simpa [cancelledSt, cancelP, bump, bumpP] using hq1
+  · simpa [cancelledSt, bump, bumpP] using hfl1
+  · simp [h3, hconf1, cancelledSt, cancelP, bump, bumpP]
+  · rw [h3]; exact hdend
+
 end Cfdp.C04
